@@ -66,6 +66,11 @@ def plan_fault_histories(case: dict, ref: dict) -> list[list[dict]]:
                 faults.append(f)
         if faults:
             hs.append([{"sigma": {}, "faults": faults, "role": "fault"}])
+    # the output directory is already populated by an earlier complete run (other working directory / spelling)
+    other = engine.sample_sigma(r, ["cwd", "out_spelling", "hashseed"])
+    if other.get("out_spelling") == "nested":
+        other["out_spelling"] = "dot"
+    hs.append([{"sigma": {}, "role": "first-of-rerun"}, {"sigma": other, "role": "rerun"}])
     # obstructed output directory: a regular file where a directory is needed / a directory where the API file goes
     dirs = sorted(k for k, v in ref["out_tree"].items() if v.get("dir"))
     files = sorted(k for k, v in ref["out_tree"].items() if "sha" in v)
@@ -98,7 +103,12 @@ def judge_run(case: dict, hi: int, res: dict, role: str, ref: dict | None) -> li
     if out in ("harness_error", "not_loadable", "usage_error"):
         return viols
     exc = res.get("exception") or {}
-    if role in ("reference", "schedule"):
+    if role == "rerun" and out == "completed" and ref is not None:
+        d = engine.first_difference(ref["out_tree"], res["out_tree"])
+        if d is not None:
+            v("rerun-output-differs", difference=d, fingerprint={"gkey": "rerun-differs"})
+        return viols
+    if role in ("reference", "schedule", "rerun"):
         if out == "failed":
             v("internal-error" if exc.get("errno") is None else "io-error-without-fault", exception=exc,
               fingerprint={"gkey": f"{exc.get('type')}:{(exc.get('innermost_tool') or ['', ''])[1]}", "message": exc.get("message"), "msg": _fp_msg(exc.get("message", ""))})
